@@ -159,14 +159,90 @@ pub fn run_deps_case(case: &Case, env: &Env, prop: &str) -> CaseOut {
 
 /// C15 through the real binary: a command that leaves a malformed depfile fails that step with a parse error
 /// naming the depfile; a missing depfile counts as empty.
+/// The prerequisites listed by the depfile of the last successful run are the discovered dependencies, exactly:
+/// a list that shrinks to nothing (an entry without prerequisites, or no depfile at all) leaves none behind, and
+/// one that grows is honoured.
+fn shrinking_depfile_case(t: &mut Tape, dir: &std::path::Path, depname: &str) -> CaseOut {
+    let mut out = CaseOut { nontrivial: true, ..Default::default() };
+    let pause = || std::thread::sleep(std::time::Duration::from_millis(15));
+    std::fs::write("a.h", "a").unwrap();
+    std::fs::write("b.h", "b").unwrap();
+    std::fs::write("in.c", "c1").unwrap();
+    std::fs::create_dir_all("deps").unwrap();
+    let cmd = format!("if test -f dep.txt; then cat dep.txt > {d}; else rm -f {d}; fi; cp in.c out.o", d = depname);
+    let m = format!("rule cc\n  command = {}\n  depfile = {}\n  description = CC\nbuild out.o: cc in.c\n", ninja_escape_value(&cmd), depname);
+    std::fs::write("build.ninja", &m).unwrap();
+    let empties: [Option<&str>; 5] = [Some("out.o:\n"), Some("out.o: \\\n\n"), Some("out.o:"), None, Some("\n")];
+    let second = empties[t.below(empties.len())];
+    let mut trace = vec![];
+    let mut step = |what: &str, expect_run: bool, out: &mut CaseOut| -> bool {
+        let (code, text) = run_n2(dir, &["-j", "1"]);
+        out.evals += 1;
+        trace.push(json!({"step": what, "exit": code, "output": text}));
+        if code.is_none() && text.starts_with("cannot run n2") {
+            out.viols.push(Viol::new("INFRA", "cannot-run-n2", text));
+            return false;
+        }
+        let ran = text.contains("ran 1 task");
+        let noop = text.contains("no work to do");
+        if code != Some(0) || (expect_run && !ran) || (!expect_run && !noop) {
+            out.viols.push(Viol::new("C15", "bb:prerequisites-not-exact", format!("{}: expected {}, n2 exited {:?} with {:?}", what, if expect_run { "the step to run" } else { "no work" }, code, text.lines().last())));
+            return false;
+        }
+        true
+    };
+    std::fs::write("dep.txt", "out.o: a.h\n").unwrap();
+    let ok = step("first build, depfile lists a.h", true, &mut out)
+        && {
+            pause();
+            std::fs::write("a.h", "a2").unwrap();
+            step("a.h edited", true, &mut out)
+        }
+        && {
+            pause();
+            std::fs::write("in.c", "c2").unwrap();
+            match second {
+                Some(txt) => std::fs::write("dep.txt", txt).unwrap(),
+                None => std::fs::remove_file("dep.txt").unwrap(),
+            }
+            step("source edited, depfile now lists nothing", true, &mut out)
+        }
+        && {
+            pause();
+            std::fs::write("a.h", "a3").unwrap();
+            step("a.h edited after the depfile stopped listing it", false, &mut out)
+        }
+        && {
+            pause();
+            std::fs::write("in.c", "c3").unwrap();
+            std::fs::write("dep.txt", "out.o: b.h \\\n a.h\n").unwrap();
+            step("source edited, depfile lists b.h and a.h", true, &mut out)
+        }
+        && {
+            pause();
+            std::fs::write("b.h", "b2").unwrap();
+            step("b.h edited", true, &mut out)
+        }
+        && step("nothing changed", false, &mut out);
+    let _ = ok;
+    out.classes = vec!["shrinking-depfile".to_string()];
+    out.fp = fnv_str(&format!("{}|{:?}", m, second));
+    out.desc = json!({"manifest": m, "second_depfile": second, "history": trace});
+    let _ = std::env::set_current_dir("/");
+    out
+}
+
 pub fn run_bad_depfile_case(case: &Case, env: &Env) -> CaseOut {
     let dir = env.dir.join("bbm");
     util::fresh_cwd(&dir);
     let mut t = Tape::new(&case.main);
     // (a line starting with a colon is accepted by the parser as an entry with an empty target name: not malformed)
     let bad = ["out.o: a.h \\\\x b.h", "out.o a.h", "\\\\", "out.o: a.h \\\\"];
-    let which = t.below(bad.len() + 2);
+    let which = t.below(bad.len() + 3);
     let depname = ["out.o.d", "deps/out.d"][t.below(2)];
+    if which == bad.len() + 2 {
+        return shrinking_depfile_case(&mut t, &dir, depname);
+    }
     std::fs::write("a.h", "a").unwrap();
     std::fs::write("in.c", "c").unwrap();
     std::fs::create_dir_all("deps").unwrap();
